@@ -19,12 +19,52 @@ type cxnAnchors struct {
 	rawReadFn *ssa.Function // contains the call of net.Conn.Read (the handler itself or a helper of it)
 	writeFn   *ssa.Function // calls net.Conn.Write (the per-command goroutine)
 	writeCall ssa.CallInstruction
-	runFn     *ssa.Function // the state machine loop (receives from the channel)
-	waitState int64         // state constant under which readFn is called
-	dispState int64         // state constant under which the dispatch function is called
-	parseFn   *ssa.Function // creates the deserializer
+	writes    []ssa.CallInstruction // every net.Conn.Write in connection code
+	runFn     *ssa.Function         // the state machine loop (receives from the channel)
+	waitState int64                 // state constant under which readFn is called
+	dispState int64                 // state constant under which the dispatch function is called
+	parseFn   *ssa.Function         // creates the deserializer
 	errs      []string
 	fInbound  *types.Var
+}
+
+// followsDispatch: a call that reaches the command dispatcher dominates the instruction in its function, or the function
+// is a helper called (only) from such a place.
+func (c *Ctx) followsDispatch(in ssa.CallInstruction) bool {
+	hs := c.M.Locks().handlerDynSites
+	reachesDispatch := func(g *ssa.Function) bool {
+		if g == nil || !c.InPkg(g) {
+			return false
+		}
+		for site := range hs {
+			if site.Parent() == g || c.M.Reach(g)[site.Parent()] {
+				return true
+			}
+		}
+		return false
+	}
+	var check func(at ssa.Instruction, depth int) bool
+	check = func(at ssa.Instruction, depth int) bool {
+		fn := at.Parent()
+		for _, in2 := range instrsOf(fn) {
+			if c2, ok := in2.(*ssa.Call); ok && in2 != at && reachesDispatch(c2.Call.StaticCallee()) && instrDominates(in2, at) {
+				return true
+			}
+		}
+		if depth < 2 {
+			if node := c.CG.Nodes[fn]; node != nil && len(node.In) > 0 {
+				all := true
+				for _, e := range node.In {
+					if !check(e.Site, depth+1) {
+						all = false
+					}
+				}
+				return all
+			}
+		}
+		return false
+	}
+	return check(in, 0)
 }
 
 func isConnMethod(c ssa.CallInstruction, name string) bool {
@@ -64,7 +104,12 @@ func (c *Ctx) cxn() *cxnAnchors {
 					a.rawReadFn = fn
 				}
 				if isConnMethod(x, "Write") && enclosingRecv(c, fn) {
-					a.writeFn, a.writeCall = fn, x
+					a.writes = append(a.writes, x)
+					// the reply writer is the write that follows a dispatch of the command in the same function (or whose
+					// function is only reached after one); any other write is judged by the single-writer clause
+					if a.writeFn == nil || c.followsDispatch(x) {
+						a.writeFn, a.writeCall = fn, x
+					}
 				}
 				if call, ok := in.(*ssa.Call); ok {
 					if g := call.Call.StaticCallee(); g != nil && g.Signature.Results().Len() == 1 && c.isPkgType(g.Signature.Results().At(0).Type(), "respDeserializer") && recvCxn {
@@ -560,6 +605,47 @@ func (c *Ctx) lengthOfDispatched(a *cxnAnchors, fn *ssa.Function, low ssa.Value)
 				walk(x.X)
 			case *ssa.ChangeType:
 				walk(x.X)
+			case *ssa.Field:
+				// the parser's results travel in one struct (`next := cc.parseCommand(); next.length / next.value`)
+				walk(x.X)
+			case *ssa.Call:
+				if calls[x] {
+					out[x] = true
+				} else {
+					out[nil] = true
+				}
+			case *ssa.UnOp:
+				// the struct kept in a local variable, or a field of it read through its address
+				switch a2 := x.X.(type) {
+				case *ssa.Alloc:
+					n := 0
+					for _, r := range referrers(a2) {
+						if st, ok := r.(*ssa.Store); ok && st.Addr == ssa.Value(a2) {
+							n++
+							walk(st.Val)
+						}
+					}
+					if n == 0 {
+						out[nil] = true
+					}
+				case *ssa.FieldAddr:
+					if al, ok := a2.X.(*ssa.Alloc); ok {
+						n := 0
+						for _, r := range referrers(al) {
+							if st, ok := r.(*ssa.Store); ok && st.Addr == ssa.Value(al) {
+								n++
+								walk(st.Val)
+							}
+						}
+						if n == 0 {
+							out[nil] = true
+						}
+					} else {
+						out[nil] = true
+					}
+				default:
+					out[nil] = true
+				}
 			default:
 				out[nil] = true
 			}
@@ -1611,4 +1697,23 @@ func fromContentSearch(c *Ctx, v ssa.Value, fContent *types.Var, depth int) bool
 		}
 	}
 	return false
+}
+
+const textSingleWriter = "R-C01-single-writer: the only place that writes to a connection's socket is the reply writer of the per-command goroutine, after the command was dispatched: a second writer (an error line sent from the reader when input looks malformed, a keep-alive) puts bytes on the wire that belong to no command, before or between the replies of the commands that are still being read"
+
+func ruleC01SingleWriter(c *Ctx) {
+	c.S.Rule("R-C01-single-writer", textSingleWriter, 1)
+	a := c.cxn()
+	if len(a.errs) > 0 {
+		c.S.Undecided("R-C01-single-writer", "anchors", "-", strings.Join(a.errs, "; "))
+		return
+	}
+	for i, w := range a.writes {
+		key := fmt.Sprintf("%s:write#%d", fnName(w.Parent()), i+1)
+		if w == a.writeCall || c.followsDispatch(w) {
+			c.S.OK("R-C01-single-writer", key, c.Pos(w.Pos()), "writes the reply of the command that was just dispatched")
+		} else {
+			c.S.Bad("R-C01-single-writer", key, c.Pos(w.Pos()), fmt.Sprintf("%s writes to the socket outside the reply path (no dispatch of a command precedes it): the client receives a line that answers no command, e.g. while a request is still arriving in pieces", fnName(w.Parent())))
+		}
+	}
 }
